@@ -478,6 +478,7 @@ func runC06(w *World, r *Report) {
 	r.Min("R6", 2)
 	c06NextExpiry(w, r)
 	c06RequestStateMachine(w, r)
+	c06WatchListOwnership(w, r)
 	r.Min("R7", 11)
 	r.Min("R8", 6)
 }
@@ -621,4 +622,51 @@ func c06RequestStateMachine(w *World, r *Report) {
 		}
 		r.Check(ok, "R6", "memoryQueue.Remove/removes-the-entry-of-that-id", rm.Pos(), "heap.Remove(i) executes only where queue[i].value == item")
 	}
+}
+
+// c06WatchListOwnership: entries leave the TTL watch list only through
+// RemoveFromWatchList (called when a request has received its verdict). The
+// expiry pass itself must not drop an entry: it may have lost the
+// StartProcessing arbitration, and a request that goes back to "enqueued" still
+// needs its TTL verdict.
+func c06WatchListOwnership(w *World, r *Report) {
+	n := 0
+	for _, f := range w.lunarFns {
+		if f.Origin() != nil || fnPkgPath(f) != pkgQProc {
+			continue
+		}
+		Instrs(f, func(in ssa.Instruction) {
+			c, ok := in.(*ssa.Call)
+			if !ok {
+				return
+			}
+			b, isB := c.Call.Value.(*ssa.Builtin)
+			if !isB || b.Name() != "delete" {
+				return
+			}
+			p := Path(c.Call.Args[0])
+			if !strings.HasSuffix(p, ".requestsExpireAt") && !strings.HasSuffix(p, ".requests") {
+				return
+			}
+			if _, sn := namedOf(fieldBaseType(c.Call.Args[0])); sn != "RequestWatcher" {
+				return
+			}
+			n++
+			id := shortFn(fnID(outermost(f)))
+			r.Check(id == "(*queue.RequestWatcher).RemoveFromWatchList", "R6", "watch-list/only-RemoveFromWatchList-deletes/"+id+"/"+p[strings.LastIndex(p, ".")+1:], posOf(c), "%s is deleted from in %s", p[strings.LastIndex(p, ".")+1:], id)
+		})
+	}
+	if n < 2 {
+		r.Undec("R6", "watch-list/deleters", token.NoPos, "expected the two deletes of RemoveFromWatchList, found %d", n)
+	}
+}
+
+// fieldBaseType: for a load of x.f returns the type of x.
+func fieldBaseType(v ssa.Value) types.Type {
+	if u, ok := v.(*ssa.UnOp); ok {
+		if fa, ok := u.X.(*ssa.FieldAddr); ok {
+			return fa.X.Type()
+		}
+	}
+	return types.Typ[types.Invalid]
 }
